@@ -115,8 +115,12 @@ pub fn lifecycle_strategy() -> BoxedStrategy<Case> {
         prop_oneof![Just(T4 - 4), Just(T4 + 4), Just(31_996u64), Just(32_004u64), Just(TIMEOUT - 4), Just(TIMEOUT + 4), Just(10u64)],
         (0u8..3, 0u8..2, prop_oneof![Just(200u16), Just(404u16)]),
         any::<u8>(),
+        // an identical copy absorbed somewhere inside the transaction's life (it must not prolong that life)
+        prop_oneof![3 => Just(None), 1 => Just(Some(501u64)), 1 => Just(Some(10_000u64)), 1 => Just(Some(20_000u64)), 1 => Just(Some(31_000u64))],
+        // a burst of identical copies while the application still holds the request unanswered
+        prop_oneof![6 => Just(0u8), 1 => Just(3u8), 1 => Just(34u8), 1 => Just(70u8)],
     )
-        .prop_map(|(reliable, (b, m, kind, g1), g2, (vary, ack), (cm, code, g3), g4, (rb, rc, code2), rng)| {
+        .prop_map(|(reliable, (b, m, kind, g1), g2, (vary, ack), (cm, code, g3), g4, (rb, rc, code2), rng, mid, flood)| {
             let base = ReqEv { branch: BranchSym::Peer(b), method: m, call_id: 0, from_tag: 0, cseq: 0, sent_by: 0 };
             let mut copy = base.clone();
             match vary {
@@ -127,7 +131,16 @@ pub fn lifecycle_strategy() -> BoxedStrategy<Case> {
                 5 => copy.branch = BranchSym::Peer((b + 1) % 4),
                 _ => {}
             }
-            let mut events = vec![(1, Ev::Req(base.clone())), (g1, Ev::Answer { sel: 0, kind })];
+            let mut events = vec![(1, Ev::Req(base.clone()))];
+            for _ in 0..flood {
+                events.push((1, Ev::Req(base.clone())));
+            }
+            events.push((g1, Ev::Answer { sel: 0, kind }));
+            let mut g2 = g2;
+            if let Some(mg) = mid.filter(|mg| *mg + 10 < g2 && !(ack && m == 0)) {
+                events.push((mg, Ev::Req(base.clone())));
+                g2 -= mg;
+            }
             if ack && m == 0 {
                 // (1 ms: while the answer is still being written on a slow transport)
                 events.push((if rng % 4 < 2 { 1 } else { 50 }, Ev::Req(ReqEv { method: 4, ..base.clone() })));
